@@ -97,6 +97,30 @@ CHECKS = {
              "Evictions inside one operation are exercised by the replay, not modelled.",
         technique="TLA+ spec (Store.tla + Lru.tla) model-checked with TLC; differential scenario replay with a small page cache",
     ),
+    "C13": dict(
+        category="model_checking",
+        text="Locks.tla states the shared/exclusive lock protocol between statements and flushes (ticker goroutine and CREATE TABLE's own "
+             "flush) with the invariants Excl and NoWriteInsideStmt; TLC checks it exhaustively. For the code, the real goroutines are "
+             "traced at their linearization points (lock acquire/release, first page change, data-file writes, log writes) with the real "
+             "100 ms ticker, each statement parked inside its critical section until the flusher has tried the lock; TLC validates the "
+             "traces against LocksTrace.tla (a write inside a statement's window, a change outside the lock, a statement that never "
+             "took the lock are unmatched events). The same driver runs under the Go race detector as an extra observer.",
+        design_ref="DESIGN.md 6 (C13)",
+        note="Verdicts depend on event order under the lock, never on timing; the parking only makes the overlap happen on every run. "
+             "Races outside the five listed statement kinds (USE / CREATE DATABASE vs the fresh ticker) are reported as notes.",
+        technique="TLA+ spec (Locks.tla) model-checked with TLC; trace validation of real goroutine schedules (LocksTrace.tla); race detector as observer",
+    ),
+    "C17": dict(
+        category="model_checking",
+        text="Session.tla states the multi-database promise (isolation, failing CREATE DATABASE/USE change nothing, SHOW lists created "
+             "names, ticks and restarts change no content) with a ghost `unsaved` set that makes TLC generate the paths on which a leaked "
+             "or re-opened store would lose data; every transition of the bounded graph (3 name variants incl. case, 2 values, 8-9 steps) "
+             "is replayed through engine.Session with timers replaced by ticks delivered to every store still open; after each step the "
+             "selected database is read back, at the end every database is selected in turn, compared, and must accept a new row with a fresh id.",
+        design_ref="DESIGN.md 6 (C17)",
+        note="Found and repaired with it: use-abandons-store, failed-use-nil-service. Trusted: TLC, hooks H1/H2 (timer off, store registry).",
+        technique="TLA+ spec (Session.tla) model-checked with TLC; per-transition behaviour replay through engine.Session",
+    ),
 }
 
 NOT_YET = "check not built yet (build in progress; see DESIGN.md section 6)"
